@@ -101,10 +101,15 @@ use byteorder::{LittleEndian, ReadBytesExt, WriteBytesExt};
 
 impl<D: DataMut> ReaderFrom for LWECompressed<D> {
     fn read_from<R: std::io::Read>(&mut self, reader: &mut R) -> std::io::Result<()> {
-        self.k = TorusPrecision(reader.read_u32::<LittleEndian>()?);
-        self.base2k = Base2K(reader.read_u32::<LittleEndian>()?);
-        reader.read_exact(&mut self.seed)?;
-        self.data.read_from(reader)
+        let k = TorusPrecision(reader.read_u32::<LittleEndian>()?);
+        let base2k = Base2K(reader.read_u32::<LittleEndian>()?);
+        let mut seed = [0u8; 32];
+        reader.read_exact(&mut seed)?;
+        self.data.read_from(reader)?;
+        self.k = k;
+        self.base2k = base2k;
+        self.seed = seed;
+        Ok(())
     }
 }
 
